@@ -179,6 +179,11 @@ def _run_case(case):
                       f'bytes as a complete body (fault {case.get("fault")})', got=hx(o.seen['retry_body'][:64]))
         if 'retry_exc' in o.seen:
             res['fired']['body_touched_again_after_rejection'] += 1
+            e2 = o.seen['retry_exc']
+            if not hasattr(e2, 'status_code'):
+                violation(res, 'C05:unmapped-error-on-retry',
+                          f'the second access of a rejected body raised {type(e2).__name__} instead of the configured '
+                          f'client-error response (errors_map: {case.get("errors_map") or "default"})')
         if o.hang is not None:
             outcome, detail = 'hang', str(o.hang)
         elif o.resp.escaped is not None:
